@@ -71,6 +71,36 @@ def cases(tier, seed):
             kwargs["optimizeCFF"] = 0      # (with charstring optimisation on: known finding F-C04-2, witnessed by a fixed case below)
         out.append({"cid": f"c04-{seed}-{k}", "lib": rng.choice(["ufoLib2", "defcon"]), "flavor": flavor, "ufo": ufo,
                     "vertical": vertical, "kwargs": kwargs})
+    # TrueType glyph programs: simple and composite glyphs carry programs of different lengths (the longest on either kind)
+    rng2 = random.Random(seed * 122949829 + 40004)
+    for k in range(12 if tier == "quick" else 150):
+        cnt = rng2.randint(2, 5)
+        names = rng2.sample(gen.NAMES, cnt)
+        glyphs = {}
+        for i, nm in enumerate(names):
+            g = {"cs": [], "comps": [], "anchors": [], "w": rng2.choice([300, 500, 640]) * P, "h": 0, "u": [0x41 + i]}
+            if i == 0 or rng2.random() < 0.4:
+                g["cs"].append(_square(rng2.randint(0, 100), rng2.randint(0, 100), rng2.randint(50, 400)))
+            else:
+                for _ in range(rng2.randint(1, 2)):
+                    g["comps"].append({"b": names[0], "m": [64, 0, 0, 64], "d": [rng2.randint(-100, 100) * P, rng2.randint(-100, 100) * P]})
+            glyphs[nm] = g
+        sizes = rng2.sample(range(1, 40), cnt)
+        if k % 2:
+            # the longest program sits on a composite
+            comp = [nm for nm in names if glyphs[nm]["comps"]]
+            if comp:
+                sizes.sort()
+                order_ = [nm for nm in names if nm not in comp] + comp
+                instr = dict(zip(order_, sizes))
+            else:
+                instr = dict(zip(names, sizes))
+        else:
+            instr = dict(zip(names, sizes))
+        if rng2.random() < 0.3:
+            instr.pop(rng2.choice(sorted(instr)))
+        out.append({"cid": f"c04-{seed}-ti{k}", "lib": rng2.choice(["ufoLib2", "defcon"]), "flavor": "tt", "vertical": False, "kwargs": {},
+                    "ufo": {"glyphs": glyphs, "info": {"unitsPerEm": 1000, "ascender": 800, "descender": -200}}, "ttInstr": instr})
     # degenerate sources: no glyph at all (only the synthesised .notdef remains)
     for flavor in ("cff", "tt"):
         out.append({"cid": f"c04-{seed}-empty-{flavor}", "lib": "ufoLib2", "flavor": flavor,
